@@ -1,6 +1,6 @@
 import sys
 pid=sys.argv[1]
-prop=open(f'/tmp/prop_{pid}.txt').read()
+prop=open(f'/verif/tools/props/prop_{pid}.txt').read()
 print(f"""You are helping to evaluate a verification effort for the Rust project pest (a PEG parser generator). Your job is to play the adversary: produce a realistic *defect* — a small source change to the project that breaks the semantic property below, while still compiling and while the project's existing test suite still passes.
 
 THE PROPERTY (this is all you get about what is being verified):
